@@ -94,7 +94,7 @@ def showIds (m : SMap) : String :=
   let ids := sortIds (m.map (·.1))
   if ids.isEmpty then "ok none" else
   "ok " ++ ";".intercalate (ids.map fun id =>
-    showCps id ++ ":" ++ (match lookup m id with | some ⟨_, some _⟩ => "R" | _ => "U"))
+    showCps id ++ ":" ++ (match lookup m id with | some ⟨_, _, some _⟩ => "R" | _ => "U"))
 
 def bool01 (s : String) : Option Bool :=
   if s = "0" then some false else if s = "1" then some true else none
